@@ -363,7 +363,10 @@ def to_expr(t):
 #        push_expr(t.em)
         return t
     elif type(t) == int or type(t) == ValueInt:
-        return expr(ExprLiteralModel(int(t), True, 32))
+        v = int(t)
+        # Integer literals are 32-bit signed unless the value needs more bits
+        w = 32 if -(1 << 31) <= v < (1 << 31) else v.bit_length()+1
+        return expr(ExprLiteralModel(v, True, w))
     elif type(t) == float:
         return expr(ExprLiteralModel(int(round(t)), True, 32))
     elif isinstance(type(t), (EnumMeta,IntEnum)):
